@@ -383,6 +383,43 @@ fn check_domain_constructors(r: &mut Report) {
     }
 }
 
+/// base domains one of which ends with the text of another WITHOUT a label boundary (example.com / myexample.com):
+/// they do not overlap; a configuration holding both may be refused (the statement only says which ones must be), but
+/// if it is accepted every host must be resolved against the domain it belongs to - in either order of the list
+fn check_raw_suffix_domains(r: &mut Report) {
+    use s3s::host::{MultiDomain, S3Host};
+    let sets: &[&[&str]] = &[
+        &["example.com", "myexample.com"], &["myexample.com", "example.com"], &["b.c", "ab.c"], &["ab.c", "b.c"], &["localhost:9000", "mylocalhost:9000"],
+        &["mylocalhost:9000", "localhost:9000"], &["x.org", "example.com", "my-example.com"], &["s3.io", "as3.io", "bas3.io"], &["bas3.io", "as3.io", "s3.io"],
+    ];
+    for ds in sets {
+        let built = std::panic::catch_unwind(|| MultiDomain::new(ds.iter()).ok());
+        let Ok(built) = built else {
+            r.violated("C12/domain-new/panic", json!({"kind": "domain", "domains": ds}));
+            continue;
+        };
+        let Some(multi) = built else {
+            r.held("host-resolution/raw-suffix-domains/configuration-refused");
+            continue;
+        };
+        for d in ds.iter() {
+            for bucket in [None, Some("bkt"), Some("a.b")] {
+                let host = bucket.map_or_else(|| (*d).to_owned(), |b| format!("{b}.{d}"));
+                let got = std::panic::catch_unwind(std::panic::AssertUnwindSafe(|| multi.parse_host_header(&host).map(|v| (v.domain().to_owned(), v.bucket().map(str::to_owned))).map_err(|e| format!("{e:?}"))));
+                let want = Ok(((*d).to_owned(), bucket.map(str::to_owned)));
+                match got {
+                    Ok(g) if g == want => r.held("host-resolution/raw-suffix-domains/resolved"),
+                    Ok(g) => r.violated(
+                        format!("C12/host-resolution/wrong/raw-suffix-domains/{}", if bucket.is_some() { "sub-domain" } else { "base-domain" }),
+                        json!({"kind": "host", "host": host, "domains": ds, "multi": format!("{g:?}"), "want": format!("{want:?}")}),
+                    ),
+                    Err(p) => r.violated("C12/host-resolution/panic", json!({"kind": "host", "host": host, "domains": ds, "panic": panic_message(&p)})),
+                }
+            }
+        }
+    }
+}
+
 /// direct host resolution: a host under base domain d resolves to (d, bucket-label)
 fn check_host_resolution(r: &mut Report, g: &mut Rng, n: u64) {
     use s3s::host::{MultiDomain, S3Host, SingleDomain};
@@ -560,6 +597,7 @@ pub fn run(ctx: &RunCtx) -> i32 {
     let rt = new_runtime();
     check_ip_hosts(&rt, &mut total);
     check_domain_constructors(&mut total);
+    check_raw_suffix_domains(&mut total);
     // (b0) the extremes together: longest / shortest bucket name x key length at the limit x how much of the key is
     // percent-encoded on the wire (nothing, every byte: 1-, 2-, 3-, 4-byte characters, spaces) x host parser x operation
     {
